@@ -131,14 +131,21 @@ func (r *FirstLastReader) Read(ctx *ReadContext, copied bool, ioPriority int) er
 			// query time range:   --------------
 			// segment time range:     ---------------
 			// If there is no null value, the first row of data is the result
-			tm = r.cm.minTime()
+			tm = minMaxSeg.minTime()
 			rowIndex = 0
+			if !ctx.Ascending {
+				// a descending read decodes the column newest first
+				rowIndex = r.dataCol.Len - 1
+			}
 		} else if !r.first && r.dataCol.NilCount == 0 && minMaxSeg.maxTime() <= ctx.tr.Max {
 			// query time range:        --------------
 			// segment time range: ---------------
 			// If there is no null value, the last row of data is the result
-			tm = r.cm.maxTime()
+			tm = minMaxSeg.maxTime()
 			rowIndex = r.dataCol.Len - 1
+			if !ctx.Ascending {
+				rowIndex = 0
+			}
 		} else {
 			if err := r.readTimeColVal(ctx, &tmMeta.entries[r.segIndex], copied, ioPriority); err != nil {
 				return err
